@@ -121,6 +121,23 @@ DESC = {
  "C18-r3m2": ("reflected ACRH lines coalesced into 4 KiB chunks above 64 lines", "more than 64 ACRH field lines under credentialed + `*` request headers"),
  "C19-r3m1": ("All: explicit stack declared outside the returned closure (shared between traversals of one Seq)", "nested or interleaved traversals of the same iter.Seq value"),
  "C19-r3m2": ("parseHostPattern wraps the cfgerrors error and the idna error with two %w", "a host that fails strict IDNA validation only: All yields two errors for one violation"),
+ # ---- fourth round: agents confined to internal/ and cfgerrors/ (middleware.go and config.go are tied structurally) ----
+ "C01-r4m1": ("Tree.Contains asks only the deepest node that can hold `*.` entries", "two nested `*.` patterns with different scheme/port sets and an origin under the inner base carrying the outer pattern's scheme/port"),
+ "C01-r4m2": ("node.elems decodes wildcard-subdomain ports IN PLACE (`ports[j] += portOffset`)", "a `*.` pattern, one Config()/Elems call on the live middleware, then more requests"),
+ "C03-r4m1": ("parsePort reads the whole digit run; the int accumulator wraps", "a port of 20+ digits congruent to an allowed port modulo 2^64"),
+ "C03-r4m2": ("Tree.Contains elides the scheme's default port before the walk", "an allowed port-less origin presented with :443 / :80 spelled out"),
+ "C06-r4m1": ("IPv6 brackets decided from the node's own fragment instead of the whole host", "two IPv6 literals where one is stored as a colon-free child of the other's suffix node"),
+ "C06-r4m2": ("adding `*.host:*` clears the node's whole subtree, forgetting other schemes", "`https://*.example.com:*` listed before `http://foo.example.com` (Config() sorts the other way round)"),
+ "C13-r4m1": ("fastParseHost classifies bytes through a 128-entry table indexed with b&0x7f", "a non-ASCII character all of whose UTF-8 bytes alias label bytes (about 3% of three-byte code points)"),
+ "C13-r4m2": ("IDNA applied to the pattern text (with its `*` label) instead of the host", "a leading `*.` together with a right-to-left Punycode label (Bidi rule fails on `*`)"),
+ "C14-r4m1": ("Check split into checkLine; the exit after a trailing empty element returns the entry position", "two or more field lines, an earlier one ending in an empty element, a later allowed-but-not-greater name"),
+ "C14-r4m2": ("isOWS as a table lookup on b&0x7f", "bytes 0x89 / 0xA0 next to an allowed name or alone as an element"),
+ "C15-r4m1": ("Insert prunes the child node holding the wildcard's (scheme, port) - with everything else that child holds", "two sibling subdomains listed before `*.parent`, one of them carrying an extra port (order-dependent)"),
+ "C15-r4m2": ("SortedSet/Set.Add de-duplicates with strings.EqualFold", "a non-normalisable method listed in two case spellings, lower case first"),
+ "C17-r4m1": ("Tree.Contains reshaped on a 'host is non-empty' invariant", "Origin with an empty host and a port: https://[]:8, https://:8"),
+ "C17-r4m2": ("All specialised to two levels; `break` in the leaf arm leaves the switch, not the loop", "errors in two or more fields, the consumer stopping at a scalar-field error that is not the last"),
+ "C19-r4m1": ("join detection through errors.As", "a leaf that wraps a join with %w: its inner errors are yielded instead of the leaf"),
+ "C19-r4m2": ("cycle guard hashing every visited error in a map", "a leaf of a non-comparable dynamic type (slice-typed or slice-holding error): panic"),
 }
 
 
